@@ -335,6 +335,16 @@ func (db *DB) Merge() error {
 					skipEntry = true
 				}
 
+				// a record of a transaction that never committed is not live,
+				// whatever the indexes say about its key or member (a set member
+				// or sorted-set node it names may exist through another record)
+				db.mu.RLock()
+				_, committed := db.committedTxIds[entry.Meta.txID]
+				db.mu.RUnlock()
+				if !committed {
+					skipEntry = true
+				}
+
 				// check if we have a new entry with same key and bucket (key/value
 				// records only: a list, set or sorted-set record is not superseded
 				// by a key/value pair that happens to have its bucket name and key)
